@@ -41,13 +41,14 @@ CHECKS = {
              "rule (C03_doolittle_pattern_closed_under_fill_in) and the numeric phase (Initialize's stream construction fused "
              "with Decompose's replay, as coded) returns unit-lower L and upper U with L*U = A entry by entry, provided no "
              "pivot is zero (C03_doolittle_factors_reproduce_A; nested loop invariants + the field identity "
-             "C03_defining_equations_give_LU_eq_A). The other three algorithms (Mozart, DoolittleInPlace, MozartInPlace) are "
-             "modelled the same way and tied, not yet proved. Tie: the library's own templates instantiated over the prime "
+             "C03_defining_equations_give_LU_eq_A); LuDecompositionDoolittleInPlace likewise, under its documented "
+             "contract that fill-in slots hold zero on entry (C03_doolittle_in_place_factors_reproduce_A). The two Mozart "
+             "algorithms are modelled the same way and tied, not yet proved. Tie: the library's own templates instantiated over the prime "
              "field Z_p (exact) vs the extracted model over Z_p: patterns and every L/U value per block, all patterns n<=3 "
              "(quick) / n<=4 (thorough) x 4 algorithms + random n<=8, CSR/CSC x standard/vector L<=4, partial groups, garbage "
              "prior L/U. Oracle on the implementation: L unit lower, U upper, L*U == A over Z_p, independence from prior contents.",
-        note="PARTIAL: full proof for Doolittle (and, through C18_lu_decomposition, its JIT twin); Mozart and the two in-place "
-             "variants are validated by the exact Z_p tie and oracle only. The encoding of the index streams as parallel arrays "
+        note="PARTIAL: full proofs for Doolittle (and, through C18_lu_decomposition, its JIT twin) and DoolittleInPlace; "
+             "Mozart and MozartInPlace are validated by the exact Z_p tie and oracle only. The encoding of the index streams as parallel arrays "
              "is not modelled (the model fuses construction and replay). Trusted: Coq kernel, extraction, harness, Zp class.",
         technique="Coq proof (loop invariants over the factorisation, any field) + exact-field differential tie of the real templates",
         ref="6 C03"),
